@@ -30,9 +30,10 @@
      73d2744 of the former ValueError) is from the exact value: the float result is compared with references by the search;
    - float overflow / finiteness of the result for huge coordinates. *)
 
+From Flocq Require Import Core.   (* bpow, radix2 for the float statements; imported first so that [float] below is PrimFloat.float *)
 From Coq Require Import PrimFloat.
 From Coq Require Import ZArith List Bool Reals Lra Permutation Sorted.
-From BZ Require Import Base.Ops Gen.Point Gen.Line Gen.Quad Gen.Cubic Gen.CurveDist Hand.MinDist Proofs.C20 Proofs.C20term.
+From BZ Require Import Base.Ops Gen.Point Gen.Line Gen.Quad Gen.Cubic Gen.CurveDist Hand.MinDist Proofs.C20 Proofs.C20term Proofs.C20termF Base.FloatCmp.
 Import ListNotations.
 Open Scope R_scope.
 
@@ -162,6 +163,24 @@ Proof. exact @minDist_terminates_abstract. Qed.
 Theorem C20_minDist_fuel_irrelevant :
   forall (T : Type) (O : Ops T) (n m : nat) (S : T -> T -> option T) (D : nat -> nat -> option T) f f' st a b c d, (f <= f')%nat -> fst (minDist O n m S D f st a b c d) <> OutOfFuel -> minDist O n m S D f' st a b c d = minDist O n m S D f st a b c d.
 Proof. exact @minDist_fuel_irrelevant. Qed.
+Theorem C20_seg_D00_F :
+  forall s1 s2, (forall r k d, Dtab (seg_Dtable FOps s1 s2) r k = Some d -> ffinite d) -> exists d00, Dtab (seg_Dtable FOps s1 s2) 0 0 = Some d00 /\ ffinite (seg_S FOps s1 s2 (ofZ FOps 0) (ofZ FOps 0)) /\ FR (seg_S FOps s1 s2 (ofZ FOps 0) (ofZ FOps 0)) = FR d00.
+Proof. exact seg_D00_F. Qed.
+Theorem C20_seg_S_finite :
+  forall s1 s2 a b, seg_ok400 s1 -> seg_ok400 s2 -> ffinite a -> ffinite b -> 0 <= FR a <= 1 -> 0 <= FR b <= 1 -> ffinite (seg_S FOps s1 s2 a b).
+Proof. exact seg_S_finite. Qed.
+Theorem C20_seg_Dtable_finite :
+  forall s1 s2, seg_ok400 s1 -> seg_ok400 s2 -> Forall (Forall ffinite) (seg_Dtable FOps s1 s2).
+Proof. exact seg_Dtable_finite. Qed.
+Theorem C20_curveDistance_terminates_F_bounded :
+  forall fuel s1 s2, seg_ok400 s1 -> seg_ok400 s2 -> (81 <= fuel)%nat -> curveDistance FOps fuel s1 s2 <> OutOfFuel.
+Proof. exact curveDistance_terminates_F_bounded. Qed.
+Theorem C20_curveDistance_fuel_irrelevant_F_bounded :
+  forall fuel s1 s2, seg_ok400 s1 -> seg_ok400 s2 -> (81 <= fuel)%nat -> curveDistance FOps fuel s1 s2 = curveDistance FOps 81 s1 s2.
+Proof. exact curveDistance_fuel_irrelevant_F_bounded. Qed.
+Theorem C20_float_run_any_fuel :
+  forall fuel, (81 <= fuel)%nat -> curveDistance FOps fuel cubic_a cubic_b = curveDistance FOps 81 cubic_a cubic_b /\ is_ok (curveDistance FOps fuel cubic_a cubic_b) = true.
+Proof. exact float_run_any_fuel. Qed.
 
 Print Assumptions C20_S_is_sqdist_2_2.
 Print Assumptions C20_S_is_sqdist_2_3.
@@ -205,3 +224,9 @@ Print Assumptions C20_minIJ_level_independent.
 Print Assumptions C20_minIJ_not_origin.
 Print Assumptions C20_minDist_terminates_abstract.
 Print Assumptions C20_minDist_fuel_irrelevant.
+Print Assumptions C20_seg_D00_F.
+Print Assumptions C20_seg_S_finite.
+Print Assumptions C20_seg_Dtable_finite.
+Print Assumptions C20_curveDistance_terminates_F_bounded.
+Print Assumptions C20_curveDistance_fuel_irrelevant_F_bounded.
+Print Assumptions C20_float_run_any_fuel.
